@@ -233,6 +233,7 @@ properties:
           type: array
           items:
             type: object
+            additionalProperties: false
             required:
               - expression
               - name
@@ -334,6 +335,7 @@ properties:
           type: array
           items:
             type: object
+            additionalProperties: false
             required:
               - expression
               - name
